@@ -173,8 +173,8 @@ def make_dir(name, timeout=1500):
     d = os.path.join(COQ, name)
     files = sorted(f for f in os.listdir(d) if f.endswith(".v"))
     proj = ["-Q ../Common PAFCommon"]
-    for d in DEPS.get(name, []):
-        proj.append("-Q ../%s PAF%s" % (d, d))
+    for dep in DEPS.get(name, []):
+        proj.append("-Q ../%s PAF%s" % (dep, dep))
     if name != "Common":
         proj.append("-Q . PAF" + name)
     proj += files
